@@ -111,3 +111,24 @@ with jmembers_eqb (a b : jmembers) : bool :=
 
 (** what the correspondence check compares with the equality of the real content hashes *)
 Definition same_hash_input (a b : json) : bool := json_eqb (strip a) (strip b).
+
+(** ---- a start that is killed while it rewrites its files ----
+    config.go: save() rewrites the files one after the other, each write is atomic (C19); the
+    accessory's entity is saved before.  A kill leaves a prefix of the rewrites. *)
+Inductive cfgkey := KUuid | KVersion | KHash.
+Definition save_one (id : bytes) (v : N) (h : bytes) (acc : disk) (k : cfgkey) : disk :=
+  match k with
+  | KUuid => mkDisk (Some id) (d_version acc) (d_hash acc) (d_entities acc)
+  | KVersion => mkDisk (d_uuid acc) (Some v) (d_hash acc) (d_entities acc)
+  | KHash => mkDisk (d_uuid acc) (d_version acc) (Some h) (d_entities acc)
+  end.
+Definition start_interrupted (order : list cfgkey) (n : nat) (d : disk) (rnd_id : bytes) (rnd_key : N) (h : bytes) : disk :=
+  let '(d', cfg) := start d rnd_id rnd_key h in
+  fold_left (save_one (c_id cfg) (c_version cfg) h) (firstn n order)
+            (mkDisk (d_uuid d) (d_version d) (d_hash d) (d_entities d')).
+Definition key_of_name (n : bytes) : option cfgkey :=
+  if eqb_bytes n [117; 117; 105; 100] then Some KUuid
+  else if eqb_bytes n [118; 101; 114; 115; 105; 111; 110] then Some KVersion
+  else if eqb_bytes n [99; 111; 110; 102; 105; 103; 72; 97; 115; 104] then Some KHash else None.
+Fixpoint order_of (names : list bytes) : list cfgkey :=
+  match names with [] => [] | n :: r => match key_of_name n with Some k => k :: order_of r | None => order_of r end end.
